@@ -1,6 +1,7 @@
 import Norad.Base.Proto
 import Driver.C11
 import Driver.C15
+import Driver.C10
 /-!
 # Line-protocol driver
 
@@ -14,6 +15,7 @@ def dispatch (inp obs : List String) : Verdict :=
   match inp.head? with
   | some "C11" => Driver.C11.run inp obs
   | some "C15" => Driver.C15.run inp obs
+  | some "C10" => Driver.C10.run inp obs
   | _ => { agree := false, model := "unknown-model" }
 
 partial def loop (h : IO.FS.Stream) (out : IO.FS.Stream) : IO Unit := do
